@@ -8,6 +8,7 @@ import (
 	"math"
 	"math/big"
 	"strconv"
+	"unicode"
 	"unicode/utf8"
 
 	"github.com/ohler55/slip"
@@ -503,13 +504,14 @@ func (c *control) dirCase(colon, at bool, params []any) {
 		caser := cases.Title(language.English)
 		c.out = append(c.out, caser.Bytes(c2.out)...)
 	case at:
-		c2.out = bytes.ToLower(c2.out)
-		caser := cases.Title(language.English)
-		if i := bytes.Index(c2.out, []byte{' '}); 0 < i {
-			c.out = append(c.out, caser.Bytes(c2.out[:i])...)
-			c.out = append(c.out, c2.out[i:]...)
-		} else {
-			c.out = append(c.out, caser.Bytes(c2.out)...)
+		// Lowercase then capitalize the first word only.
+		done := false
+		for _, r := range string(bytes.ToLower(c2.out)) {
+			if !done && unicode.IsLetter(r) {
+				r = unicode.ToUpper(r)
+				done = true
+			}
+			c.out = utf8.AppendRune(c.out, r)
 		}
 	default:
 		c.out = append(c.out, bytes.ToLower(c2.out)...)
